@@ -113,3 +113,31 @@ Definition pg_update (g : podgroup) (sp : spec) (xs : list task_extra) (jobprio 
 
 Fixpoint tm_get (k : positive) (m : list (positive * Z)) : option Z :=
   match m with [] => None | (k', v) :: r => if Pos.eqb k k' then Some v else tm_get k r end.
+
+(* ---------- createOrUpdatePodGroup against lister / API server, with a refused write ---------- *)
+Definition res3_eq_dec : forall a b : res3, {a = b} + {a <> b}.
+Proof. decide equality; apply Z.eq_dec. Defined.
+Definition pg_eq_dec : forall a b : podgroup, {a = b} + {a <> b}.
+Proof.
+  decide equality; try apply Z.eq_dec; try apply res3_eq_dec.
+  apply list_eq_dec. decide equality; [apply Z.eq_dec|apply Pos.eq_dec].
+Defined.
+
+(* lister: the PodGroup the lister shows; api: the one on the API server; fail: the
+   create / update call of this invocation, if one is made, is refused.
+   Result: API server afterwards, error returned *)
+Definition create_or_update_pg (lister api : option podgroup) (sp : spec) (xs : list task_extra) (jp : Z) (fail : bool)
+  : option podgroup * bool :=
+  match lister with
+  | None =>
+      if fail then (api, true)
+      else (match api with None => Some (pg_create sp xs jp) | Some g => Some g (* AlreadyExists is tolerated *) end, false)
+  | Some g =>
+      let g' := pg_update g sp xs jp in
+      if pg_eq_dec g' g then (api, false)                       (* shouldUpdateExistingPodGroup = false *)
+      else if fail then (api, true)
+      else match api with
+           | None => (None, true)                               (* NotFound *)
+           | Some _ => (Some g', false)
+           end
+  end.
